@@ -12,8 +12,8 @@ import (
 	"crypto/rand"
 	"crypto/sha256"
 	"crypto/sha512"
-	"encoding/binary"
 	"encoding/base64"
+	"encoding/binary"
 	"encoding/json"
 	"fmt"
 	"hash"
@@ -21,15 +21,17 @@ import (
 	"strings"
 	"time"
 
+	gojose "github.com/go-jose/go-jose/v3"
+	"github.com/google/tink/go/hybrid/subtle"
 	bbs "github.com/hyperledger/aries-framework-go/component/kmscrypto/crypto/primitive/bbs12381g2pub"
 	"github.com/hyperledger/aries-framework-go/component/kmscrypto/doc/jose"
 	"github.com/hyperledger/aries-framework-go/component/kmscrypto/doc/jose/jwk"
 	"github.com/hyperledger/aries-framework-go/component/kmscrypto/doc/jose/jwk/jwksupport"
 	"github.com/hyperledger/aries-framework-go/component/kmscrypto/doc/jose/kidresolver"
-	"github.com/hyperledger/aries-framework-go/component/models/jose/diddocresolver"
 	"github.com/hyperledger/aries-framework-go/component/kmscrypto/doc/util/fingerprint"
 	"github.com/hyperledger/aries-framework-go/component/kmscrypto/doc/util/kmsdidkey"
 	"github.com/hyperledger/aries-framework-go/component/models/did"
+	"github.com/hyperledger/aries-framework-go/component/models/jose/diddocresolver"
 	afjwt "github.com/hyperledger/aries-framework-go/component/models/jwt"
 	"github.com/hyperledger/aries-framework-go/component/models/ld/testutil"
 	"github.com/hyperledger/aries-framework-go/component/models/presexch"
@@ -46,9 +48,8 @@ import (
 	"github.com/hyperledger/aries-framework-go/pkg/didcomm/common/service"
 	"github.com/hyperledger/aries-framework-go/pkg/didcomm/protocol/decorator"
 	"github.com/hyperledger/aries-framework-go/pkg/didcomm/transport"
+	"github.com/hyperledger/aries-framework-go/pkg/doc/cm"
 	"github.com/hyperledger/aries-framework-go/spi/kms"
-	gojose "github.com/go-jose/go-jose/v3"
-	"github.com/google/tink/go/hybrid/subtle"
 	"github.com/piprate/json-gold/ld"
 
 	"verifharness/c01env"
@@ -362,7 +363,7 @@ type edSigner struct {
 }
 
 func (s *edSigner) Sign(data []byte) ([]byte, error) { return ed25519.Sign(s.priv, data), nil }
-func (s *edSigner) Headers() jose.Headers              { return jose.Headers{"alg": "EdDSA", "kid": s.kid} }
+func (s *edSigner) Headers() jose.Headers            { return jose.Headers{"alg": "EdDSA", "kid": s.kid} }
 
 func (s *syncWorld) jwsSeeds() {
 	pub, priv, err := ed25519.GenerateKey(detRand("c03-jws"))
@@ -785,6 +786,12 @@ const didDocV2019 = `{"@context":"https://www.w3.org/2019/did/v1","id":"did:exam
 "service":[{"id":"did:example:21tDAKCERh95uGgKbJNHYp#didcomm","type":"IndyAgent","priority":0,"recipientKeys":["H3C2AVvLMv6gmMNam3uVAjZpfkcJCwDwnZn6z3wXmqPV"],"routingKeys":["JhNWeSVLMYccCk7iopQW4guaSJTojqpMEELgSLhKwRr"],"serviceEndpoint":"https://agent.example.com/"}],
 "created":"2019-09-23T14:16:59Z"}`
 
+const manifestJSON = `{"id":"dcc75a16-19f5-4273-84ce-4da69ee2b7fe","issuer":{"id":"did:example:123?linked-domains=3","name":"Washington State Government","styles":{"thumbnail":{"uri":"https://dol.wa.com/logo.png","alt":"Washington State Seal"},"background":{"color":"#ff0000"},"text":{"color":"#d4d400"}}},
+"output_descriptors":[{"id":"udc_output","schema":"https://www.w3.org/2018/credentials/examples/v1","name":"University degree","description":"d",
+"display":{"title":{"path":["$.credentialSubject.degree.name","$.name"],"schema":{"type":"string"},"fallback":"Degree"},"subtitle":{"path":["$.issuer.name"],"schema":{"type":"string"},"fallback":"Issuer"},
+"description":{"text":"Awarded degree."},"properties":[{"path":["$.credentialSubject.degree.type"],"schema":{"type":"string"},"fallback":"Unknown","label":"Degree type"},{"text":"static","label":"Static"}]},
+"styles":{"thumbnail":{"uri":"https://dol.wa.com/logo.png","alt":"a"},"hero":{"uri":"https://dol.wa.com/people-working.png","alt":"b"},"background":{"color":"#ff0000"},"text":{"color":"#d4d400"}}}]}`
+
 const pdJSON = `{"id":"pd1","input_descriptors":[{"id":"d1","group":["A"],"schema":[{"uri":"https://www.w3.org/2018/credentials#VerifiableCredential"}],
 "constraints":{"limit_disclosure":"required","fields":[{"path":["$.credentialSubject.degree.name"],"filter":{"type":"string","pattern":"Bach"}}]}}],
 "submission_requirements":[{"rule":"pick","count":1,"from":"A"}]}`
@@ -995,6 +1002,33 @@ func (s *syncWorld) docSeeds() {
 	} else {
 		panic(fmt.Sprintf("c03 setup: presexch CreateVP: %v", e))
 	}
+
+	// a credential manifest of an issuer, resolved against a credential (wallet display)
+	cmRun := func(in []byte) error {
+		var m cm.CredentialManifest
+		if e := json.Unmarshal(in, &m); e != nil {
+			return e
+		}
+
+		var first error
+
+		for _, od := range m.OutputDescriptors {
+			id := ""
+			if od != nil {
+				id = od.ID
+			}
+
+			if _, e := m.ResolveCredential(id, cm.RawCredentialToResolve(signed)); e != nil && first == nil {
+				first = e
+			}
+		}
+
+		return first
+	}
+
+	must(cmRun([]byte(manifestJSON)))
+	s.add(&Seed{Name: "cm.manifest", Layer: "X", Kind: "json", Wire: []byte(manifestJSON),
+		Targets: []Target{{"cm.ResolveCredential", cmRun}}})
 
 	// JWK
 	ecK, err := ecdsa.GenerateKey(elliptic.P256(), detRand("c03-jwk"))
